@@ -74,7 +74,12 @@ func (t *_ticker) run() {
 
 		case <-t.resetch:
 			if !timer.Stop() {
-				<-timer.C
+				// the tick may already have been consumed by the
+				// timer.C case below: drain without blocking.
+				select {
+				case <-timer.C:
+				default:
+				}
 			}
 			timer.Reset(t.nextPeriod())
 			nextch = nil
